@@ -345,6 +345,16 @@ class GatedObserver:
             self._reader_parked = False        # the buffer thread has exited (root deleted or crash)
         return self.raw_log[n0:]
 
+    def reader_maps(self):
+        """The reader's book-keeping (Inotify._wd_for_path, Inotify._path_for_wd) as two dicts, or None."""
+        try:
+            em = self.observer._emitter_for_watch[self.watch]
+            ino = em._inotify._inotify
+            with ino._lock:
+                return dict(ino._wd_for_path), dict(ino._path_for_wd)
+        except Exception:
+            return None
+
     def emit(self):
         """Let the emitter thread consume one item of the buffer (must be available); returns the events delivered."""
         if not self._emitter_parked:
